@@ -28,13 +28,13 @@ ASSUMPTIONS = [
 # named comparison is skipped for exactly that shape (counted with the label excluded:<signature>); a case carrying
 # "noexclude": [signatures] (only the defect replays do; the generators never emit it) is judged in full for those.
 EXCLUDE_KNOWN = {
-    "macro/empty-composition-not-zero": True,
+    "macro/empty-composition-not-zero": False,  # repaired in /repo (fix: commit); shape searched again
     "merge/refused-target-changed/nuclides-added": True,
     "merge/refused-target-changed/library-properties": True,
     "merge/refused-target-changed/chiFlag": True,
-    "merge/neutron-velocity-lost": True,
-    "merge/filewide-chi-crash-on-nuclide-without-isotxs": True,
-    "collection/total-scatter-missing-n2n": True,
+    "merge/neutron-velocity-lost": False,  # repaired in /repo (fix: commit); shape searched again
+    "merge/filewide-chi-crash-on-nuclide-without-isotxs": False,  # repaired in /repo (fix: commit); shape searched again
+    "collection/total-scatter-missing-n2n": False,  # repaired in /repo (fix: commit); shape searched again
 }
 
 REFUSALS = None  # filled lazily (armi import)
@@ -86,6 +86,18 @@ def _global_check(out, guard):
     out.check(not bad, "global/shared-zero-xs-mutated", lambda: "XSCollection._zeroes%s is no longer all zero" % bad)
     for k in bad:
         xsCollections.XSCollection._zeroes[k] = np.zeros(k)
+
+
+def _once(out):
+    """Keep the first report of each signature (one defect -> one line per case)."""
+    seen = set()
+    kept = []
+    for sig, msg in out.violations:
+        if sig not in seen:
+            seen.add(sig)
+            kept.append((sig, msg))
+    out.violations = kept
+    return out
 
 
 def _resolve(case):
@@ -322,6 +334,11 @@ def _empty_kinds():
 # part 1: merging 1..4 generated libraries in all orders
 
 
+def _groups(small, full):
+    """Mostly 1..small leading groups of the fixture, now and then its full group structure."""
+    return st.tuples(st.integers(1, small), st.sampled_from([0] * 11 + [1])).map(lambda t: full if t[1] else t[0])
+
+
 def _lib_spec(kinds=("iso", "iso", "gam", "pmx"), pool=(0, 1, 2, 3, 4, 7, 24)):
     return st.fixed_dictionaries(
         {
@@ -370,8 +387,8 @@ def merge_strategy(tier):
     fams = st.lists(_family(), min_size=2, max_size=3).map(lambda ls: [s for fam in ls for s in fam][:4])
     return st.fixed_dictionaries(
         {
-            "ng": st.integers(1, 6),
-            "gg": st.integers(1, 4),
+            "ng": _groups(6, 33),
+            "gg": _groups(4, 21),
             "startEmpty": st.booleans(),
             "allFW": st.sampled_from([False] * 7 + [True]),
             # (one_of would merge repeated alternatives, so the weights are drawn explicitly)
@@ -556,7 +573,7 @@ def merge_execute(case):
     finally:
         _cleanup(paths)
         _global_check(out, guard)
-    return out
+    return _once(out)
 
 
 # ------------------------------------------------------------------------------------------------
@@ -571,8 +588,8 @@ def _dens():
 def macro_strategy(tier):
     return st.fixed_dictionaries(
         {
-            "ng": st.integers(1, 6),
-            "gg": st.integers(1, 4),
+            "ng": _groups(6, 33),
+            "gg": _groups(4, 21),
             "base": st.sampled_from(["AA", "AB"]),
             "suffix": st.integers(0, 3),
             "nucs": st.one_of(
@@ -765,7 +782,9 @@ def macro_execute(case):
                 if val is None or not isinstance(val, np.ndarray) or np.any(val != 0.0):
                     out.fail(sig_empty, "%s for the empty composition is %r, expected zeros" % (tag, val))
                     return np.zeros(shape)
-                return np.zeros(shape) + val
+                # any all-zero array is "zero" (without a contributing nuclide armi cannot know that e.g. `total` is
+                # groups x Legendre orders); normalise to the reference shape for the relational checks below
+                return np.zeros(shape)
             return fn(dens)
 
         for tag, fn, arrs, mult in constants:
@@ -884,8 +903,10 @@ def macro_execute(case):
                 pas = pa.totalScatter.toarray()
                 pb = mc.createMacrosFromMicros(lib, blk, nucNames=keys[h:])
                 for rx in fullv:
-                    _close(out, pav[rx] + np.array(pb[rx]), fullv[rx], np.abs(fullv[rx]) * 4, "creator/additivity", "%s block %s" % (bname, rx))
-                _close(out, pas + pb.totalScatter.toarray(), fulls, np.abs(fulls) * 4, "creator/additivity", "%s block totalScatter" % bname)
+                    _close(out, pav[rx] + np.array(pb[rx]), fullv[rx], (np.abs(pav[rx]) + np.abs(pb[rx])) * 4, "creator/additivity",
+                           "%s block %s" % (bname, rx))
+                pbs = pb.totalScatter.toarray()
+                _close(out, pas + pbs, fulls, (np.abs(pas) + np.abs(pbs)) * 4, "creator/additivity", "%s block totalScatter" % bname)
 
         # ---- XSCollection.getTotalScatterMatrix on the microscopic collections
         for x in iso + gam:
@@ -923,7 +944,7 @@ def macro_execute(case):
     finally:
         _cleanup(paths)
         _global_check(out, guard)
-    return out
+    return _once(out)
 
 
 # ------------------------------------------------------------------------------------------------
@@ -1016,11 +1037,11 @@ def workdir_execute(case):
     finally:
         shutil.rmtree(d, ignore_errors=True)
         _global_check(out, guard)
-    return out
+    return _once(out)
 
 
 PARTS = [
-    Part("merge_orders", merge_execute, strategy=merge_strategy, budget={"quick": 320, "thorough": 20000},
+    Part("merge_orders", merge_execute, strategy=merge_strategy, budget={"quick": 320, "thorough": 8000},
          procs={"quick": 8, "thorough": 16},
          rule="Hypothesis: 1-4 library specs (ISOTXS/GAMISO/PMATRX derived from the fixtures: group counts, nuclide subsets, xs-ID "
               "suffixes, scales, dropped reactions/blocks, bands, file-wide chi, dose factors; free or grouped in same-label "
@@ -1028,14 +1049,14 @@ PARTS = [
               "after every step the target is compared with a union model (compatible step) or with its own previous snapshot "
               "(conflicting step must raise); final snapshots of all orders compared pairwise; non-trivial = >= 2 libraries "
               "with >= 2 nuclides"),
-    Part("macro_sums", macro_execute, strategy=macro_strategy, budget={"quick": 400, "thorough": 30000},
+    Part("macro_sums", macro_execute, strategy=macro_strategy, budget={"quick": 400, "thorough": 12000},
          procs={"quick": 8, "thorough": 16},
          rule="Hypothesis: an ISOTXS+GAMISO+PMATRX family merged in a drawn order; compositions with zero densities, the empty "
               "composition, missing nuclides; computeMacroscopicGroupConstants (16 constants), the four energy-constant "
               "functions and MacroscopicCrossSectionCreator (duck-typed and real block, neutron and gamma) against numpy sums "
               "over the separately read sources; linearity, additivity over a partition, derived sums; non-trivial = >= 3 "
               "nuclides with non-zero density including one with fission data"),
-    Part("working_dir", workdir_execute, strategy=workdir_strategy, budget={"quick": 150, "thorough": 6000},
+    Part("working_dir", workdir_execute, strategy=workdir_strategy, budget={"quick": 150, "thorough": 3000},
          procs={"quick": 4, "thorough": 16},
          rule="Hypothesis: 1-3 xs-ID families written as ISOxx (+ xx.gamiso, xx.pmatrx) into a scratch directory; "
               "mergeXSLibrariesInWorkingDirectory must give the union model (or refuse a group-structure conflict), return "
